@@ -227,6 +227,9 @@ def _while_idioms(stmts: list) -> list:
                     if itn not in _names_in(rest) and itn not in _names_in(later):
                         loop = ast.For(target=a.targets[0], iter=iters[itn], body=rest or [ast.Pass()], orelse=[], type_comment=None)
                         new = [loop] + ([h.body[0]] if isinstance(h.body[0], ast.Return) else [])
+            # ---- peeling the head off a sequence:  while X: a, X = X[0], X[1:] ; BODY   =   for i in range(len(X0)): a = X0[i]; X = X0[i+1:]; BODY
+            if new is None:
+                new = _head_peel(st, later)
         if new is not None:
             for n_ in new:
                 ast.copy_location(n_, st)
@@ -238,6 +241,74 @@ def _while_idioms(stmts: list) -> list:
     res = out if changed else stmts
     _wi_cache[key] = (stmts, res)
     return res
+
+
+_hp_counter = [0]
+
+
+def _head_peel(st: ast.While, later: list):
+    """`while X:` / `while len(X) > 0:` whose body starts with `a, X = X[0], X[1:]` (or the two assignments one after the other) and does not
+    assign X again: the positional loop over the sequence X held on entry."""
+    t = st.test
+    X = None
+    if isinstance(t, ast.Name):
+        X = t.id
+    elif isinstance(t, ast.Call) and isinstance(t.func, ast.Name) and t.func.id == "len" and len(t.args) == 1 and isinstance(t.args[0], ast.Name) and not t.keywords:
+        X = t.args[0].id
+    elif isinstance(t, ast.Compare) and len(t.ops) == 1 and isinstance(t.left, ast.Call) and isinstance(t.left.func, ast.Name) and t.left.func.id == "len" \
+            and len(t.left.args) == 1 and isinstance(t.left.args[0], ast.Name) and isinstance(t.comparators[0], ast.Constant):
+        c = t.comparators[0].value
+        if (isinstance(t.ops[0], (ast.Gt, ast.NotEq)) and c == 0 and c is not False) or (isinstance(t.ops[0], ast.GtE) and c == 1 and c is not True):
+            X = t.left.args[0].id
+    if X is None or not st.body:
+        return None
+
+    def is_head(e):
+        return isinstance(e, ast.Subscript) and isinstance(e.value, ast.Name) and e.value.id == X and isinstance(e.slice, ast.Constant) and e.slice.value == 0 \
+            and e.slice.value is not False
+
+    def is_tail(e):
+        return isinstance(e, ast.Subscript) and isinstance(e.value, ast.Name) and e.value.id == X and isinstance(e.slice, ast.Slice) and e.slice.upper is None \
+            and e.slice.step is None and isinstance(e.slice.lower, ast.Constant) and e.slice.lower.value == 1 and e.slice.lower.value is not True
+
+    first = st.body[0]
+    head_target = None
+    used = 0
+    if isinstance(first, ast.Assign) and len(first.targets) == 1 and isinstance(first.targets[0], ast.Tuple) and isinstance(first.value, ast.Tuple) \
+            and len(first.targets[0].elts) == 2 and len(first.value.elts) == 2:
+        (ta, tb), (va, vb) = first.targets[0].elts, first.value.elts
+        if isinstance(tb, ast.Name) and tb.id == X and isinstance(ta, ast.Name) and ta.id != X and is_head(va) and is_tail(vb):
+            head_target, used = ta, 1
+    elif len(st.body) >= 2 and isinstance(first, ast.Assign) and len(first.targets) == 1 and isinstance(first.targets[0], ast.Name) and first.targets[0].id != X \
+            and is_head(first.value):
+        second = st.body[1]
+        if isinstance(second, ast.Assign) and len(second.targets) == 1 and isinstance(second.targets[0], ast.Name) and second.targets[0].id == X and is_tail(second.value):
+            head_target, used = first.targets[0], 2
+    if head_target is None:
+        return None
+    rest = st.body[used:]
+    wrapper = ast.Module(body=rest, type_ignores=[])
+    for n in ast.walk(wrapper):
+        if isinstance(n, ast.Name) and n.id == X and isinstance(n.ctx, (ast.Store, ast.Del)):
+            return None
+        if isinstance(n, ast.Call) and isinstance(n.func, ast.Attribute) and isinstance(n.func.value, ast.Name) and n.func.value.id == X and n.func.attr in MUTATORS:
+            return None
+        if isinstance(n, (ast.Break, ast.Continue)) and X in _names_in(later):
+            return None
+    _hp_counter[0] += 1
+    seq, idx = f"__seq{_hp_counter[0]}", f"__pos{_hp_counter[0]}"
+    ld = lambda n_: ast.Name(id=n_, ctx=ast.Load())  # noqa: E731
+    pre = ast.Assign(targets=[ast.Name(id=seq, ctx=ast.Store())], value=ld(X))
+    a1 = ast.Assign(targets=[head_target], value=ast.Subscript(value=ld(seq), slice=ld(idx), ctx=ast.Load()))
+    a2 = ast.Assign(targets=[ast.Name(id=X, ctx=ast.Store())], value=ast.Subscript(
+        value=ld(seq), slice=ast.Slice(lower=ast.BinOp(left=ld(idx), op=ast.Add(), right=ast.Constant(value=1)), upper=None, step=None), ctx=ast.Load()))
+    loop = ast.For(target=ast.Name(id=idx, ctx=ast.Store()), iter=ast.Call(func=ld("range"), args=[ast.Call(func=ld("len"), args=[ld(seq)], keywords=[])], keywords=[]),
+                   body=[a1, a2] + (rest or [ast.Pass()]), orelse=[], type_comment=None)
+    out = [pre, loop]
+    if X in _names_in(later):
+        out.append(ast.Assign(targets=[ast.Name(id=X, ctx=ast.Store())], value=ast.Subscript(
+            value=ld(seq), slice=ast.Slice(lower=ast.Call(func=ld("len"), args=[ld(seq)], keywords=[]), upper=None, step=None), ctx=ast.Load())))
+    return out
 
 
 def _emptiness_form(c: Term) -> Term:
@@ -1143,6 +1214,10 @@ class Evaluator:
             self.unknowns.append((func.qname, line, "assign:" + type(tgt).__name__))
 
     def _add_effect(self, cur: Term, eff: tuple) -> Term:
+        if cur[0] == "listlit" and eff[0] == "delitem" and len(eff) == 2 and eff[1][0] == "const" and isinstance(eff[1][1], int) \
+                and not isinstance(eff[1][1], bool) and all(x[0] != "star" for x in cur[1]) and -len(cur[1]) <= eff[1][1] < len(cur[1]):
+            i = eff[1][1] % len(cur[1])
+            return ("listlit", cur[1][:i] + cur[1][i + 1:])  # del [a, b, c][1]  leaves  [a, c]
         if cur[0] == "mut":
             return ("mut", cur[1], cur[2] + (eff,))
         return ("mut", cur, (eff,))
@@ -2354,6 +2429,14 @@ class Evaluator:
                 # a constant looked up in a collection of known constants
                 res = TRUE if a in items else FALSE
                 return res if isinstance(op, ast.In) else self.negate(res)
+        if isinstance(op, (ast.In, ast.NotIn)):
+            items = self._literal_items(b)
+            if items is not None and len(items) <= 6:
+                # x in [e0, e1]: x == e0 or x == e1 -- folded only when every comparison is decided by the operands' classes
+                eqs = [self._eq_by_class(a, x_) for x_ in items]
+                if all(q_ in (TRUE, FALSE) for q_ in eqs):
+                    res = TRUE if TRUE in eqs else FALSE
+                    return res if isinstance(op, ast.In) else self.negate(res)
         if isinstance(op, ast.In):
             return ("in", a, b)
         if isinstance(op, ast.NotIn):
@@ -2787,6 +2870,10 @@ class Evaluator:
                 if r.qname in self.primitives:
                     return [(state, self.prim_meth(f[2], r, args, kwargs))]
                 return self.inline(r, args, kwargs, state, func, line, self_term=f[2])
+        if h == "bound" and f[2] in ("__eq__", "__ne__") and len(args) == 1 and not kwargs:
+            # x.__eq__(y) as a predicate (filter(one.__eq__, xs)): the comparison itself
+            r_ = self.compare(ast.Eq() if f[2] == "__eq__" else ast.NotEq(), f[1], args[0])
+            return [(state, r_)]
         if h == "bound":
             recv, name = f[1], f[2]
             c = self.cls_of(recv)
@@ -3263,9 +3350,44 @@ class Evaluator:
                 # any()/all() judge the elements by truthiness
                 a0 = ("comp", a0[1], self.as_cond(a0[2]), a0[3])
             return [(state, (name, a0))]
+        if name.split(".")[-1] == "filterfalse" and len(args) == 2 and not kwargs:
+            # filterfalse(p, xs) keeps what filter(p, xs) drops; over elements that are all known, decided element by element
+            fn, xs = args
+            items = self._literal_items(xs)
+            if items is not None and len(items) <= 6 and fn != NONE:
+                kept, okf = [], True
+                for x_ in items:
+                    r_ = self.apply(fn, [x_], {}, state, func, line)
+                    c_ = self.as_cond(r_[0][1]) if len(r_) == 1 and r_[0][1][0] != "apply" else None
+                    if c_ == FALSE:
+                        kept.append(x_)
+                    elif c_ != TRUE:
+                        okf = False
+                        break
+                if okf:
+                    return [(state, ("listlit", tuple(kept)))]
+            v = self.fresh("m_")
+            et = self.elem_type(xs)
+            if et is not None:
+                self.set_type(v, et)
+            res = self.apply(fn, [v], {}, state, func, line) if fn != NONE else [(state, v)]
+            if len(res) == 1 and res[0][1][0] != "apply":
+                return [(state, ("comp", "gen", v, ((v, xs, (self.negate(self.as_cond(res[0][1])),)),)))]
         if name in ("map", "filter") and len(args) == 2 and not kwargs:
             fn, xs = args
             items = self._literal_items(xs)
+            if name == "filter" and items is not None and len(items) <= 6 and fn != NONE:
+                kept, okf = [], True
+                for x_ in items:
+                    r_ = self.apply(fn, [x_], {}, state, func, line)
+                    c_ = self.as_cond(r_[0][1]) if len(r_) == 1 and r_[0][1][0] != "apply" else None
+                    if c_ == TRUE:
+                        kept.append(x_)
+                    elif c_ != FALSE:
+                        okf = False
+                        break
+                if okf:
+                    return [(state, ("listlit", tuple(kept)))]
             if name == "map" and items is not None and len(items) <= 6 and fn != NONE:
                 # map(f, (a, b)) over elements that are all known: (f(a), f(b))
                 outs_ = [(state, [])]
@@ -3427,6 +3549,10 @@ class Evaluator:
                 return [(state, args[1])]
         if tail == "deepcopy" and len(args) == 1:
             return [(state, ("copyof", args[0]))]
+        if tail == "filterfalse" and len(args) == 2 and not kwargs:
+            r_ = self.apply_builtin("filterfalse", args, kwargs, state, func, line)
+            if not (len(r_) == 1 and r_[0][1][0] == "call" and r_[0][1][1] == "filterfalse"):
+                return r_
         if tail == "takewhile" and len(args) == 2:
             # the prefix of the sequence before the first element that fails the predicate = a loop that appends while the predicate
             # holds and breaks at the first failure
